@@ -591,43 +591,41 @@ def check_root_flag(P, ctx):
     fn = P.fn('alloc_by')
     g = P.cfg(fn)
     ctx.fn(fn)
-    sw = [n for n in g.live() if n['kind'] == 'switch']
-    ok = len(sw) == 1
+    # decided per allocation method by enumerating the paths that are feasible for that method (switch or if-chain alike)
+    N = util.Norm(P, fn, expand_locals=True, inline=False)
     got = {}
-    if ok:
-        for (v, l) in sw[0]['succ']:
-            if not (isinstance(l, tuple) and l[0] == 'case'):
+    ok = True
+    for name in ('ALLOC_STANDARD', 'ALLOC_RAW', 'ALLOC_ROOT'):
+        if name not in P.enums:
+            ok = False
+            continue
+        seen = set()
+        npaths = 0
+        env = {('enum', k): v for k, v in P.enums.items()}
+        env[('param', 1)] = P.enums[name]
+        for path in util.paths_under(g, N, env, P.enums):
+            if util.path_end(path)[0] != 'ret':
                 continue
-            name = l[1][1] if l[1][0] == 'enum' else None
-            # statements from this label up to the next break: follow until a node shared with other labels? use straight line
-            cur = v
+            npaths += 1
             regs = []
-            seen = set()
-            while cur is not None and cur not in seen:
-                seen.add(cur)
-                n = g.nodes[cur]
-                if n['expr'] is not None:
-                    for c in ir.calls(n['expr']):
-                        if ir.callee_name(c) == 'set' and len(c[2]) == 3:
-                            a0 = ir.top_nocast(c[2][0])
-                            st = ir.as_stack(c[2][2])
-                            if a0[0] == 'call' and ir.callee_name(a0) == 'current' and ir.top_nocast(a0[2][0]) == ('global', 'GC') and st and st[0] == 'Int':
-                                regs.append((ir.canon(c[2][1]), util.const_int(st[1][0])))
-                if n['kind'] == 'ret' or len(n['succ']) != 1:
-                    break
-                nxt = n['succ'][0][0]
-                # stop at a join that is another case label (fall-through is part of the semantics, keep going) or at the switch exit
-                if g.nodes[nxt]['kind'] == 'ret':
-                    break
-                cur = nxt
-            got[name] = regs
-        selfv = [n for n in g.live() if n['kind'] == 'ret']
-        ok = set(got) == {'ALLOC_STANDARD', 'ALLOC_RAW', 'ALLOC_ROOT'}
-        if ok:
-            rv = ir.canon(selfv[0]['expr']) if selfv else None
-            ok = got['ALLOC_RAW'] == [] and got['ALLOC_STANDARD'] == [(rv, 0)] and got['ALLOC_ROOT'] == [(rv, 1)]
+            for ev in util.path_events(path):
+                if ev['t'] == 'call' and ev['name'] == 'set' and len(ev['args']) == 3:
+                    a0 = ir.top_nocast(ev['args'][0])
+                    st = ir.as_stack(ev['args'][2])
+                    if a0[0] == 'call' and ir.callee_name(a0) == 'current' and ir.top_nocast(a0[2][0]) == ('global', 'GC') and st and st[0] == 'Int':
+                        regs.append((ir.canon(ev['args'][1]), util.const_int(st[1][0])))
+            rv = ir.canon(util.path_end(path)[1]) if util.path_end(path)[1] is not None else None
+            seen.add((tuple(regs), rv))
+        got[name] = sorted(seen, key=str)
+        want = {'ALLOC_STANDARD': 0, 'ALLOC_ROOT': 1}.get(name)
+        for regs, rv in seen:
+            if want is None:
+                ok = ok and regs == ()
+            else:
+                ok = ok and regs == ((rv, want),)
+        ok = ok and npaths > 0
     ctx.check(ok, rule, 'alloc_by', site(fn), 'standard allocations are registered with root flag 0, root allocations with flag 1, raw allocations not at all — each exactly once, with the pointer that is returned',
-              ['registrations per method: %s' % {k: [(ir.fmt(a), b) for a, b in v] for k, v in got.items()}])
+              ['registrations per method: %s' % {k: [[(ir.fmt(a), b) for a, b in regs] for regs, rv in v] for k, v in got.items()}])
     for w, m in (('alloc', 'ALLOC_STANDARD'), ('alloc_raw', 'ALLOC_RAW'), ('alloc_root', 'ALLOC_ROOT')):
         f = P.fn(w)
         cs = [c for c, _ in ir.all_calls(f['body']) if ir.callee_name(c) == 'alloc_by']
